@@ -54,11 +54,51 @@ def find_containers():
     for name, mod in sorted(sys.modules.items()):
         if not (name == "a5" or name.startswith("a5.")) or mod is None:
             continue
+        home = (getattr(mod, "__file__", None),)
         for k, v in list(vars(mod).items()):
-            if k.startswith("__") or isinstance(v, (types.ModuleType, types.FunctionType, type)):
+            if k.startswith("__") or isinstance(v, types.ModuleType):
                 continue
-            add(f"{name}.{k}", v, 2, (getattr(mod, "__file__", None),))
+            if isinstance(v, types.FunctionType):
+                _function_state(f"{name}.{k}", v, add, home)
+                continue
+            if isinstance(v, type):
+                if getattr(v, "__module__", "") == name:
+                    for ck, cv in list(vars(v).items()):
+                        f = getattr(cv, "__func__", cv)
+                        if isinstance(f, types.FunctionType):
+                            _function_state(f"{name}.{k}.{ck}", f, add, home)
+                        elif isinstance(cv, (list, dict, set, bytearray)):
+                            add(f"{name}.{k}.{ck}", cv, 1, home)        # class-level mutable state
+                continue
+            add(f"{name}.{k}", v, 2, home)
     return out
+
+
+def _function_state(path, fn, add, home):
+    """Mutable state reachable from a function object: closure cells, mutable defaults, function attributes, and the
+    same for a wrapped function (decorators)."""
+    seen_fn = set()
+    while isinstance(fn, types.FunctionType) and id(fn) not in seen_fn:
+        seen_fn.add(id(fn))
+        names = fn.__code__.co_freevars
+        for nm, cell in zip(names, fn.__closure__ or ()):
+            try:
+                val = cell.cell_contents
+            except ValueError:
+                continue
+            if isinstance(val, (list, dict, set, bytearray)):
+                add(f"{path}.<closure {nm}>", val, 1, home)
+                CLOSURE_NAME[f"{path}.<closure {nm}>"] = nm
+        for i, d in enumerate(fn.__defaults__ or ()):
+            if isinstance(d, (list, dict, set, bytearray)):
+                add(f"{path}.<default {i}>", d, 1, home)
+        for ak, av in list(getattr(fn, "__dict__", {}).items()):
+            if isinstance(av, (list, dict, set, bytearray)):
+                add(f"{path}.{ak}", av, 1, home)
+        fn = getattr(fn, "__wrapped__", None)
+
+
+CLOSURE_NAME = {}
 
 
 HOME = {}          # container path -> source files of the code that owns it (module holding it, class defining it)
@@ -84,6 +124,7 @@ class Tracker:
         self.refresh()
 
     def refresh(self):
+        self.previous = {}          # container path -> (object, shallow copy before the last change seen)
         self.containers = find_containers()
         self.copies = [self._copy(o) for _, o in self.containers]
 
@@ -108,12 +149,16 @@ class Tracker:
                 same = False
             if same:
                 continue
+            self.previous[path] = (o, old)
             if isinstance(o, dict):
                 for k, v in o.items():
                     if k not in old:
                         changes.append((f"{path}[{k!r}]"[:160], None, _digest(v)))
                     elif not _eq(old[k], v):
                         changes.append((f"{path}[{k!r}]"[:160], _digest(old[k]), _digest(v)))
+                gone = [k for k in old if k not in o]
+                for k in gone[:50]:
+                    changes.append((f"{path}[{k!r}]"[:160], _digest(old[k]), "<deleted>"))
             elif isinstance(o, list):
                 for j, v in enumerate(o):
                     if j >= len(old):
@@ -123,7 +168,10 @@ class Tracker:
             else:
                 changes.append((path, _digest(old), _digest(o)))
             self.copies[i] = self._copy(o)
-        # containers created since (lazily built caches)
+        # containers created since (lazily built caches): looked for on the first calls and then every 64th
+        self._n = getattr(self, "_n", 0) + 1
+        if self._n > 8 and self._n % 64:
+            return changes
         known = {id(o) for _, o in self.containers}
         for path, o in find_containers():
             if id(o) not in known:
@@ -145,6 +193,9 @@ def slot_name(slot_path):
     """The identifier under which code refers to the slot's container: the module-level variable name, or the
     instance attribute name."""
     import re
+    m = re.search(r"<closure ([A-Za-z_][A-Za-z0-9_]*)>", slot_path)
+    if m:
+        return m.group(1)
     m = re.search(r"__dict__\['([A-Za-z_][A-Za-z0-9_]*)'\]", slot_path)
     if m:
         return m.group(1)
@@ -183,3 +234,24 @@ def accessor_codes(name):
                         visit(w.fget.__code__)
     _code_cache[name] = frozenset(found)
     return _code_cache[name]
+
+
+def container_path(slot_path):
+    """The tracked container a slot belongs to (longest registered path that prefixes it)."""
+    best = None
+    for p in HOME:
+        if slot_path.startswith(p) and (best is None or len(p) > len(best)):
+            best = p
+    return best
+
+
+def restore(obj, snapshot):
+    """Put a tracked container back into a state it was in earlier in this process (in place)."""
+    if isinstance(obj, dict):
+        obj.clear()
+        obj.update(snapshot)
+    elif isinstance(obj, list):
+        obj[:] = snapshot
+    elif isinstance(obj, set):
+        obj.clear()
+        obj.update(snapshot)
